@@ -11,6 +11,17 @@ COMMON_ASSUMPTIONS = [
 ]
 
 PROPS = {
+    "C01": dict(
+        mc=[dict(module="MC_C01")], judge="Judge_C01", want=["js"],
+        rule="TLC enumerates all attribute sequences (21 attribute atoms: static/multi-line strings, value-less, "
+             "bound/unbound identifiers, calls, members, namespaced, static/dynamic class and style, listeners, "
+             "spreads of identifier/object literal/call, on/nativeOn objects) up to the length bound on an element and a "
+             "component host under mergeProps x transformOn, every tag form under all option combinations, and every "
+             "syntactic category of attribute value; non-trivial = has attributes or is a tag-form case",
+        exhaustive=dict(quick=True, thorough=True),
+        assumptions=["repeated plain attribute names are outside the domain (only class/style/listeners/spreads repeat)",
+                     "class strings are compared as token lists, listener lists as sets, a falsy listener equals no listener"],
+    ),
     "C02": dict(
         mc=[dict(module="MC_C02")], judge="Judge_C02", want=["js"],
         rule="TLC enumerates every JSX-text string over the symbol alphabet up to the length bound in every "
